@@ -73,6 +73,15 @@ def run(tier, build, replay=None):
         got_b = {(c["exchanges"].index(x[0]), c["holders"].index(x[1])): x[2:] for x in i["ok"]["balances"]}
         if {k: list(v) for k, v in got_b.items()} != {k: list(v) for k, v in flows.items()}:
             out.violation(f"balances under window ({f}, {t}) do not reflect all history up to the to-date", rep, tags=tags | {"balances"})
+        # yearly summary lines cover whole years starting with the from-date's year (sums over ALL fractions of those
+        # years dated up to the to-date, not only over the fractions shown)
+        want_y = oracle.yearly(c, b["fractions"], t, f)
+        got_y = {(y[0], y[1], y[2]): [y[3], oracle.dec_of_pair(y[4]), oracle.dec_of_pair(y[5]), oracle.dec_of_pair(y[6])] for y in i["ok"]["yearly"]}
+        if want_y != got_y:
+            diff = sorted(set(want_y) ^ set(got_y)) or [k for k in want_y if want_y[k] != got_y.get(k)]
+            out.violation(f"yearly summary under window ({f}, {t}) does not cover whole years from the from-date's year up to the to-date: "
+                          f"lines {diff[:3]} differ (expected {[want_y.get(k) for k in diff[:2]]}, reported {[got_y.get(k) for k in diff[:2]]})",
+                          rep, tags=tags | {"yearly-window"})
         if want and len(want) < len(b["fractions"]):
             nontriv.add(core.case_hash(rep))
         if "err" in m or l4.diff_keys(i["ok"], m):
